@@ -327,6 +327,33 @@ func (e *Engine) verifyLemma(res *FuncResult, fc *FuncContract) *FuncResult {
 		vc.assume(TTrue, t)
 	}
 	vc.exits = append(vc.exits, TTrue)
+	if fc.RawClaim != "" {
+		claim := e.floatSorts(fc.RawClaim)
+		vars := e.floatSorts(fc.RawVars)
+		sub := func(with string) string { return replaceToken(claim, fc.Induct, with) }
+		all := func(body string) string {
+			if strings.TrimSpace(vars) == "" {
+				return body
+			}
+			return "(forall (" + vars + ") " + body + ")"
+		}
+		if fc.Induct == "" {
+			vc.oblige("lemma", "claim", TTrue, A(all(claim)), 0, fc.RawClaim, nil, "")
+		} else {
+			base := sub("0")
+			vc.oblige("lemma", "base", TTrue, A(all(base)), 0, "base case "+fc.Induct+" = 0: "+fc.RawClaim, nil, "")
+			vc.cmds = append(vc.cmds, "(declare-const "+fc.Induct+" Int)", "(assert (>= "+fc.Induct+" 0))")
+			ih := claim
+			if fc.RawPat != "" && strings.TrimSpace(vars) != "" {
+				vc.cmds = append(vc.cmds, "(assert (forall ("+vars+") (! "+ih+" :pattern ("+e.floatSorts(fc.RawPat)+")))) ; induction hypothesis")
+			} else {
+				vc.cmds = append(vc.cmds, "(assert "+all(ih)+") ; induction hypothesis")
+			}
+			succ := "(+ " + fc.Induct + " 1)"
+			step := sub(succ)
+			vc.oblige("lemma", "step", TTrue, A(all(step)), 0, "induction step "+fc.Induct+" -> "+fc.Induct+"+1: "+fc.RawClaim, nil, "")
+		}
+	}
 	for i, en := range fc.Ensures {
 		t, err := mk().compileBool(en.Expr)
 		if err != nil {
@@ -338,4 +365,29 @@ func (e *Engine) verifyLemma(res *FuncResult, fc *FuncContract) *FuncResult {
 	res.Obls = vc.Obls
 	res.Errors = vc.Errors
 	return res
+}
+
+// replaceToken replaces every whole token `name` in SMT text.
+func replaceToken(s, name, with string) string {
+	var sb strings.Builder
+	i := 0
+	for i < len(s) {
+		c := s[i]
+		if c == ' ' || c == '(' || c == ')' || c == '\t' || c == '\n' {
+			sb.WriteByte(c)
+			i++
+			continue
+		}
+		j := i
+		for j < len(s) && s[j] != ' ' && s[j] != '(' && s[j] != ')' && s[j] != '\t' && s[j] != '\n' {
+			j++
+		}
+		if s[i:j] == name {
+			sb.WriteString(with)
+		} else {
+			sb.WriteString(s[i:j])
+		}
+		i = j
+	}
+	return sb.String()
 }
